@@ -24,7 +24,7 @@ BOUNDS = dict(quick=dict(nb="1..2", R_sets="7 sets of 5..27 R-vectors, all large
                             data="symbolic complex X(R), |X|<=1", hermitian_flag="both", fftlib="fftw(stub) numpy(stub) slow k-list"))
 EXPLANATION = ("The real FFT_R_to_k / Rvectors / Data_K_R code runs on symbolic complex R-space matrices X(R) (and, in the symbolic-lattice cases, symbolic lattice vectors and "
                "Wannier centres); numpy.fft and pyfftw are replaced by the DFT definition. Every output entry is a polynomial in the atoms with double coefficients (twiddles, phases); "
-               "z3 (QF_LRA over the monomials) decides that each back end agrees with the explicit sum over R written in the harness to 1e-9 for all |atoms|<=1, and that the outputs are Hermitian.")
+               "z3 (QF_LRA over the monomials) decides that each back end agrees with the explicit sum over R written in the harness to 1e-9 for all |atoms|<=1, and that the outputs are Hermitian to the same tolerance.")
 ASSUMPTIONS = ["|X(R)_ab| components, lattice entries and reduced centres in [-1,1] (tolerance obligations; the identities are homogeneous in X)",
                "hermitian-data cases: R-set closed under inversion and X(-R)=X(R)^dagger (the statement's 'Hermitian real-space model')"]
 OUTSIDE = ["internals of numpy.fft / FFTW (replaced by the DFT definition; the stub is validated against both libraries on random input in the 'stub validation' case and in every replay)",
@@ -187,7 +187,7 @@ def case_backends(rec, rset, NK, dK, nb, der, herm_data, symlat, trailing=()):
                     continue
                 rec.close(f"{lib} hermitian={hflag} der={der} == explicit sum over R", out, want, TOL, key=f"R_to_k {lib} differs from explicit sum (hermitian={hflag})")
                 if hflag:
-                    rec.eq(f"{lib} hermitian=True output exactly Hermitian", out, dagger(out), key=f"R_to_k {lib} hermitian=True output not hermitian")
+                    rec.close(f"{lib} hermitian=True output Hermitian", out, dagger(out), TOL, key=f"R_to_k {lib} hermitian=True output not hermitian")
                 elif herm_data:
                     rec.close(f"{lib} Hermitian model: H and its derivatives Hermitian", out, dagger(out), TOL, key=f"R_to_k {lib} output of hermitian model not hermitian")
             rec.close(f"fftw == numpy == slow == k-list (hermitian={hflag})", np.array([outs["fftw"], outs["slow"], outs["k-list"]], dtype=object),
@@ -218,7 +218,7 @@ def case_dataK(rec, rset, NK, dK, nb, dermax, symlat):
             rec.concrete(f"{lib}: kpoints_all == points_FFT + dK (mod 1)", np.shape(dk.kpoints_all) == kpts.shape and
                          np.abs((dk.kpoints_all - kpts + 0.5) % 1 - 0.5).max() < 1e-12, key="Data_K.kpoints_all")
             rec.close(f"Data_K_R.HH_K [{lib}] == explicit sum", dk.HH_K, (refs[0] + dagger(refs[0])) * 0.5, TOL, key=f"Data_K_R.HH_K {lib} differs from explicit sum")
-            rec.eq(f"Data_K_R.HH_K [{lib}] exactly Hermitian", dk.HH_K, dagger(dk.HH_K), key=f"Data_K_R.HH_K {lib} not hermitian")
+            rec.close(f"Data_K_R.HH_K [{lib}] Hermitian", dk.HH_K, dagger(dk.HH_K), TOL, key=f"Data_K_R.HH_K {lib} not hermitian")
             for der in range(1, dermax + 1):
                 out = dk.Xbar('Ham', der)
                 rec.close(f"Data_K_R.Xbar('Ham',{der}) [{lib}] == explicit sum", out, refs[der], TOL, key=f"Data_K_R.Xbar(Ham,der) {lib} differs from explicit sum")
